@@ -20,14 +20,14 @@ const c17iProg = "---@class Pt\n---@field x number\nlocal Pt = {}\n" +
 
 var c17iTypes = []int{2, 4, 10, 22, 23, 24, 26, 27, 28}
 
-func c17iRun(root string, ignore int) map[string]bool {
+func c17iRun(root string, ignore int, ignoreList string) map[string]bool {
 	vpInit()
 	c08workspace(root)
 	js := "{\n \"BaseDir\": \"./\",\n \"ShowWarnFlag\": 1,\n \"OpenErrorTypes\": [22, 23, 24, 25, 26, 27, 28],\n \"IgnoreErrorTypes\": ["
 	if ignore > 0 {
 		js += strconv.Itoa(ignore)
 	}
-	js += "]\n}\n"
+	js += ignoreList + "]\n}\n"
 	verifVFSPut(root+"/luahelper.json", []byte(js))
 	if err := common.GConfig.ReadConfig(root, "luahelper.json", nil, nil, nil); err != nil {
 		return nil
@@ -47,9 +47,20 @@ func c17iRun(root string, ignore int) map[string]bool {
 func VerifRun_C17i() {
 	root := verifVFSRoot()
 	verifVFSPut(root+"/a.lua", []byte(c17iProg))
-	ti := verifConcretize(verifRange("ignored", 0, len(c17iTypes)-1))
-	base := c17iRun(root, 0)
-	got := c17iRun(root, c17iTypes[ti])
+	// one type ignored, or (last choice) all the types that need the cross-file passes at once
+	ti := verifConcretize(verifRange("ignored", 0, len(c17iTypes)-1+verifParamOr("ALLSPECIAL", 1)))
+	base := c17iRun(root, 0, "")
+	offSet := map[int]bool{}
+	var got map[string]bool
+	if ti == len(c17iTypes) {
+		for _, t := range []int{2, 3, 9, 10, 11, 12} {
+			offSet[t] = true
+		}
+		got = c17iRun(root, 0, "2, 3, 9, 10, 11, 12")
+	} else {
+		offSet[c17iTypes[ti]] = true
+		got = c17iRun(root, c17iTypes[ti], "")
+	}
 	verifReach("compared")
 	if base == nil || got == nil {
 		verifViolation("", "a well-formed luahelper.json is rejected")
@@ -62,7 +73,7 @@ func VerifRun_C17i() {
 			t = t*10 + int(k[i]-'0')
 		}
 		seen[t] = true
-		off := t == c17iTypes[ti]
+		off := offSet[t]
 		if off && got[k] {
 			verifViolation("", "a diagnostic of an ignored type is still reported")
 		}
